@@ -125,6 +125,15 @@ static void run_sequence(const std::vector<int>& ops) {
             ++g_checks;
             std::shared_ptr<Obj> p = unwrap_shared_ptr<Obj>(h.first, "ptr_Obj");
             if (p.get() != raw[h.second]) fail("handle|unwrap_shared_ptr-wrong-object", "sequence " + seq);
+            // the same handle as MATLAB passes it to a gateway: in a temporary argument header whose address is
+            // reused from call to call
+            static mxArray* header = new mxArray();
+            *header = *h.first;
+            ++g_checks;
+            std::shared_ptr<Obj> p2 = unwrap_shared_ptr<Obj>(header, "ptr_Obj");
+            if (p2.get() != raw[h.second]) fail("handle|unwrap_shared_ptr-wrong-object-through-recycled-header", "sequence " + seq);
+            Obj* p3 = unwrap_ptr<Obj>(header, "ptr_Obj");
+            if (p3 != raw[h.second]) fail("handle|unwrap_ptr-wrong-object-through-recycled-header", "sequence " + seq);
           }
         } else if (op == 9) {
           for (auto& h : handles) {
@@ -268,6 +277,14 @@ int main(int argc, char** argv) {
     must_raise<gtsam::Matrix>("array|Matrix", (cn + " 2x2").c_str(), arr(c, 2, 2));
     must_raise<gtsam::Point2>("array|Point2", (cn + " 2x1").c_str(), arr(c, 2, 1));
     must_raise<gtsam::Point3>("array|Point3", (cn + " 3x1").c_str(), arr(c, 3, 1));
+  }
+  // ... also when such an array has no elements ('' , cell(0,3), ...)
+  for (mxClassID c : {mxCHAR_CLASS, mxLOGICAL_CLASS, mxUINT64_CLASS, mxSTRUCT_CLASS, mxCELL_CLASS}) {
+    std::string cn = "class" + show((int)c);
+    must_raise<gtsam::Matrix>("array|Matrix-empty-non-double", (cn + " 0x0").c_str(), arr(c, 0, 0));
+    must_raise<gtsam::Matrix>("array|Matrix-empty-non-double", (cn + " 0x3").c_str(), arr(c, 0, 3));
+    must_raise<gtsam::Matrix>("array|Matrix-empty-non-double", (cn + " 1x0").c_str(), arr(c, 1, 0));
+    must_raise<gtsam::Vector>("array|Vector-empty-non-double", (cn + " 0x1").c_str(), arr(c, 0, 1));
   }
   for (size_t n : {(size_t)0, (size_t)2, (size_t)3}) {
     must_raise<gtsam::Vector>("array|Vector-columns", ("3x" + show(n) + " double").c_str(), dbl(3, n));
